@@ -3,6 +3,7 @@ module verif
 go 1.21
 
 require (
+	github.com/anishathalye/porcupine v1.3.0
 	github.com/youchainhq/go-youchain v0.0.0
 	golang.org/x/crypto v0.0.0-20200423211502-4bdfaf469ed5
 )
